@@ -198,7 +198,7 @@ var numLits = []JNum{
 	{Int: "0"}, {Neg: true, Int: "0"}, {Int: "1"}, {Neg: true, Int: "1"}, {Int: "2"}, {Int: "7"}, {Int: "42"},
 	{Int: "100"}, {Int: "999999"}, {Int: "1000000"}, {Int: "1234567"}, {Int: "123456789"},
 	{Int: "1", Frac: "5"}, {Int: "0", Frac: "5"}, {Int: "1", Frac: "0"}, {Int: "100", Frac: "00"}, {Neg: true, Int: "2", Frac: "75"},
-	{Int: "1", Exp: "2"}, {Int: "1", Exp: "3"}, {Int: "1", Exp: "+2"}, {Int: "5", Exp: "-1"}, {Int: "15", Exp: "-1"}, {Int: "1", Frac: "5", Exp: "1"},
+	{Int: "1", Exp: "2"}, {Int: "1", Exp: "3"}, {Int: "5", Exp: "-1"}, {Int: "15", Exp: "-1"}, {Int: "1", Frac: "5", Exp: "1"},
 	{Int: "1", Exp: "6"}, {Int: "1", Exp: "20"}, {Int: "1", Exp: "21"}, {Int: "1", Exp: "30"}, {Int: "1", Exp: "-7"}, {Int: "1", Exp: "-5"},
 	{Int: "9007199254740991"}, {Int: "9007199254740992"}, {Int: "9007199254740993"}, {Int: "9007199254740995"},
 	{Int: "9223372036854775807"}, {Int: "9223372036854775808"}, {Int: "9223372036854775809"}, {Neg: true, Int: "9223372036854775808"}, {Neg: true, Int: "9223372036854775809"},
@@ -235,7 +235,7 @@ func GenNum(r *rand.Rand) *JT {
 	case 7:
 		return NumLit(JNum{Neg: r.Intn(4) == 0, Int: digits(r, 1+r.Intn(8)), Frac: digits(r, 1+r.Intn(4))})
 	case 8:
-		e := []string{"0", "1", "2", "5", "10", "15", "18", "19", "20", "22", "-1", "-2", "-10", "+3", "05"}
+		e := []string{"0", "1", "2", "5", "10", "15", "18", "19", "20", "22", "-1", "-2", "-10", "3", "7"}
 		return NumLit(JNum{Neg: r.Intn(4) == 0, Int: digits(r, 1+r.Intn(5)), Exp: gen.Pick(r, e)})
 	default:
 		return IntLit(digits(r, 1+r.Intn(25)))
